@@ -23,6 +23,7 @@ func Init() {
 		panic(err)
 	}
 	time.Local = loc
+	hio.Register((*gen.EmbHidden)(nil))
 	for _, t := range gen.NamedStructs() {
 		if t.Kind() == reflect.Struct {
 			hio.Register(reflect.New(t).Interface())
